@@ -58,6 +58,25 @@ func refLevels(mp M, increasing bool, s *Snap, mg *marginT) (levels []map[string
 
 // refLevelsR additionally takes the response: for an explicit threshold list the thresholds of criteria added
 // by biases are seeded random numbers that are only visible in the bias reports (one value per level).
+var refLevelsReq *ReqView // set by refLevelsV for the duration of one call (judges are single-threaded per process)
+
+// refLevelsV: as refLevelsR, but a criterion the REQUEST declares a valuesRange for is placed with that declared
+// range (C14: "the declared valuesRange if present") whatever a bias may have done to the criterion object.
+func refLevelsV(v *ReqView, increasing bool, s *Snap, mg *marginT, r *Resp) ([]map[string]float64, bool, bool) {
+	refLevelsReq = v
+	defer func() { refLevelsReq = nil }()
+	return refLevelsR(v.MP, increasing, s, mg, r)
+}
+
+func levelRange(s *Snap, id string) (float64, float64) {
+	if refLevelsReq != nil {
+		if rc := refLevelsReq.crit(id); rc != nil && rc.HasRange {
+			return rc.Min, rc.Max
+		}
+	}
+	return s.rangeOf(id)
+}
+
 func refLevelsR(mp M, increasing bool, s *Snap, mg *marginT, r *Resp) (levels []map[string]float64, generated bool, endless bool) {
 	fn := str(mp["function"])
 	params := asM(mp["params"])
@@ -83,7 +102,7 @@ func refLevelsR(mp M, increasing bool, s *Snap, mg *marginT, r *Resp) (levels []
 	for _, r := range rs {
 		lv := map[string]float64{}
 		for _, c := range s.Crit {
-			lo, hi := s.rangeOf(c.Id)
+			lo, hi := levelRange(s, c.Id)
 			d := (hi - lo) * r
 			if c.Cost {
 				lv[c.Id] = hi - d
